@@ -205,6 +205,24 @@ func otherCalls(c Case, w *vkit.W, limit int) {
 			if over(a) && !errors.Is(err, sem.ErrInputTooLong) {
 				w.Fail(c, "limit-not-enforced", fmt.Sprintf("sem.%s: first operand has %d bytes (limit %d) but the error is %v", name, len(a), limit, err))
 			}
+			if !over(a) && over(b) {
+				// the one-argument parser of the same form says whether the first operand stands in the way
+				var aErr error
+				switch {
+				case strings.HasSuffix(name, "Version"):
+					_, aErr = sem.ParseVersion(sa)
+				case strings.HasSuffix(name, "Tag"):
+					_, aErr = sem.ParseTag(sa)
+				default:
+					_, aErr = sem.Parse(sa)
+				}
+				if aErr == nil && !errors.Is(err, sem.ErrInputTooLong) {
+					w.Fail(c, "limit-not-enforced", fmt.Sprintf("sem.%s: the first operand %q is fine, the second has %d bytes (limit %d) but the error is %v", name, sa, len(b), limit, err))
+				}
+				if aErr == nil && err != nil && len(b) >= 12 && strings.Contains(err.Error(), string(b[:12])) {
+					w.Fail(c, "too-long-message-reproduces-input", fmt.Sprintf("sem.%s: the message for an over-long second operand contains it: %.200q", name, err.Error()))
+				}
+			}
 			if !over(a) && !over(b) && errors.Is(err, sem.ErrInputTooLong) {
 				w.Fail(c, "limit-spurious", fmt.Sprintf("sem.%s: operands have %d and %d bytes (limit %d) but ErrInputTooLong was reported", name, len(a), len(b), limit))
 			}
@@ -513,6 +531,54 @@ func TestCheck(t *testing.T) {
 						}
 					}
 					restore()
+				}
+			}
+		})
+	})
+
+	// Phase B6: the two-argument helpers with operands of different lengths: only one of them beyond the limit.
+	r.Phase("B6: sem two-argument helpers with only the first / only the second operand beyond MaxInputLength in {1024, 10, 40, 2000}", func() {
+		shorts := []string{"1.2.3", "v1.2.3", "0.0.0-a", "v9.9.9+b", "1.2", "x"}
+		for _, lim := range []int{1024, 10, 40, 2000} {
+			restore := setLimit("sem", lim)
+			r.Serial(func(w *vkit.W) {
+				for _, short := range shorts {
+					for _, n := range []int{lim + 1, lim + 2, lim * 3} {
+						for _, long := range []string{"1.2.3-" + strings.Repeat("a", n), "v1.2.3+" + strings.Repeat("b.", n/2) + "b", strings.Repeat("z", n), "1.2.3-" + strings.Repeat("é", n/2)} {
+							for _, c := range []Case{{Pkg: "sem", A: vkit.B(short), B: vkit.B(long), Limit: lim}, {Pkg: "sem", A: vkit.B(long), B: vkit.B(short), Limit: lim}} {
+								w.Guard(c, func() { otherCalls(c, w, lim) })
+								w.EvalRandom(vkit.Hash64("B6", string(c.A), string(c.B), strconv.Itoa(lim)), true)
+							}
+						}
+					}
+				}
+			})
+			restore()
+		}
+	})
+
+	// Phase B7: Size.UnmarshalJSON / UnmarshalText under every DefaultRule word with empty, blank and broken inputs (totality).
+	r.Phase("B7: size.UnmarshalJSON / UnmarshalText / json.Unmarshal under every DefaultRule subset (and undefined bits) with nil, empty, blank, broken and valid inputs", func() {
+		old := size.DefaultRule
+		defer func() { size.DefaultRule = old }()
+		inputs := [][]byte{nil, {}, []byte(" "), []byte("\n"), []byte("x"), []byte(`"`), []byte("{"), []byte("["), []byte("}"), []byte("null"), []byte("0"), []byte(`""`), []byte(`"1kB"`), []byte(`{"value":1,"unit":"kB"}`), []byte("1 kB"), []byte("\x00"), []byte("\xff"), []byte(`{"value":`), []byte(`{}`)}
+		r.Serial(func(w *vkit.W) {
+			for rule := 0; rule <= 18; rule++ {
+				rw := rule
+				if rule > 15 {
+					rw = []int{0xffff, 0x10, 0xfff0}[rule-16]
+				}
+				size.DefaultRule = size.Rule(rw)
+				for _, in := range inputs {
+					c := Case{Pkg: "size", A: vkit.B(in), Rule: rw, Limit: -1}
+					w.Guard(c, func() {
+						var s size.Size
+						_ = s.UnmarshalJSON(in)
+						_ = s.UnmarshalText(in)
+						_ = json.Unmarshal(in, &s)
+						_ = json.Unmarshal(append(append([]byte(`{"S":`), in...), '}'), &struct{ S size.Size }{})
+					})
+					w.EvalRandom(vkit.Hash64("B7", string(in), strconv.Itoa(rw)), true)
 				}
 			}
 		})
